@@ -380,12 +380,14 @@ func (c *compiler) compileFunctionBody(f ast.Function) {
 	}
 
 	// Need to make sure there is a return instruction emitted at the
-	// end.
+	// end.  The body of a function with no return statement was given an
+	// empty one (see ast.NewFunction): remove it so that the labels at the end
+	// of the body are known to be at the end of the block.
 	body := f.Body
-	if body.Return == nil {
-		body.Return = []ast.ExpNode{}
+	if len(body.Return) == 0 && !f.BareReturn {
+		body.Return = nil
 	}
-	c.compileBlock(body)
+	c.compileFunctionBlock(body)
 
 }
 
